@@ -62,6 +62,11 @@ def gen_case(rng):
             if o and t and l and s_:
                 sel = o
                 break
+    r2 = random.Random("C01-T-%d-%d" % (len(ds["inputs"]), len(ds["inputs"][0]["cells"])))
+    if kind == "det" and not fss and not ds.get("clim") and r2.random() < 0.5:
+        # -T h -Tagg f: a case whose trailing window is incomplete in ONE file is no case for any file (own random stream)
+        sel = dict(sel)
+        sel["T"] = {"h": r2.choice([1, 3, 6, 12, 24, 48]), "agg": r2.choice(["mean", "sum", "sum", "max", "min", "median"]), "tx": "leadtime"}
     return {"ds": ds, "kind": kind, "clim_type": rng.choice(["subtract", "subtract", "divide"]), "sel": sel, "fss": fss}
 
 
@@ -115,13 +120,21 @@ def run_case(case, ctx):
     sargv = vutil.opts_to_argv(case.get("sel") or {})
     if sargv:
         ctx.count("cases_with_selection_options")
+    if (case.get("sel") or {}).get("T"):
+        ctx.count("cases_with_T_preaggregation")
     d = os.path.join(ctx.workdir, "c%d" % ctx.evaluations)
     os.makedirs(d, exist_ok=True)
-    paths, cpath = gen.materialize(ds, d, random.Random(len(ds["inputs"][0]["cells"]) + 7 * len(ds["inputs"])))
+    # under -T the files are written with their dimensions stored ascending (a NetCDF file that stores lead times in another
+    # order gets other windows: the recorded C15 finding, not a case-set question)
+    paths, cpath = gen.materialize(ds, d, None if opts.get("T") else random.Random(len(ds["inputs"][0]["cells"]) + 7 * len(ds["inputs"])))
     F = len(ds["inputs"])
     fmts = "".join(i["fmt"][0] for i in ds["inputs"]) + ("+c" + ds["clim"]["fmt"][0] if ds["clim"] else "")
     ensemble_derived = kind == "ens"
-    rel = 1e-6 if (ensemble_derived or case["clim_type"] == "divide") else 1e-12
+    rel = 1e-6 if (ensemble_derived or case["clim_type"] == "divide" or opts.get("T")) else 1e-12
+    # under -T each obs-bearing file's observations are aggregated over its own lead-time grid: they are the same
+    # observations for every input only when those grids agree
+    obs_grids = set(tuple(sorted(i["leadtimes"])) for i in ds["inputs"] if "obs" in i["has"])
+    same_obs_everywhere = not opts.get("T") or len(obs_grids) <= 1
 
     for fields in field_combos(ds, kind):
         cname = combo_name(fields)
@@ -174,7 +187,7 @@ def run_case(case, ctx):
                 if len(set(lens)) > 1:
                     ctx.violation("unequal-case-counts", "fields %s axis %s slice %d: case counts per input %s"
                                   % (cname, axis, idx, lens), case)
-                if fields[0] == ("obs",):
+                if fields[0] == ("obs",) and same_obs_everywhere:
                     obs0 = sorted(per_input[0][0])
                     for k in range(1, F):
                         if sorted(per_input[k][0]) != obs0:
